@@ -143,7 +143,15 @@ class Run(object):
         self._kev = []
         self.log.add("op", self.step_no, op, rec.get("args"), rec.get("faults"))
         if op == "new":
-            self.t = gen.build_tt(self.ttm, rec["spec"])
+            # the constructor from a list of cores is code under test too: if it raises on well-formed cores, or builds
+            # an object whose metadata disagree with its cores, no property about that object can hold
+            try:
+                self.t = gen.build_tt(self.ttm, rec["spec"])
+            except Exception as e:
+                raise Violation(self.prop, "oracle(TT.__init__,raised)", "raised", {"exception": repr(e)[:300]}, step=self.step_no)
+            p_ = M.structural_problem(self.t)
+            if p_ is not None:
+                raise Violation(self.prop, "oracle(TT.__init__,consistent)", "consistent", {"problem": p_}, step=self.step_no)
             # single-precision cores: "up to rounding" means float32 rounding; only the C03 clauses and the rank cap /
             # quasi-optimality of C04 are evaluated then (tolerances x 2e5), everything threshold- or svd/pinv-related
             # is skipped
